@@ -350,6 +350,8 @@ fn value_case<T: Reg>(cx: &mut Cx, name: &str, desc: &str, v: &T, seed: u64) {
 	}));
 	match cx.mode {
 		Mode::C01 => {
+			// every entry point must describe the same (specified) byte string
+			entry_points::<T>(cx, name, v, &enc, &rp);
 			let term = format!("(GEnc {} {} {})", desc, v.val_enc(), blist(&enc));
 			if cx.cases.push(term, rp.clone(), !enc.is_empty()) && enc.len() < 40 {
 				cx.stats.sample(format!("{name}: {} encodes to {}", v.val_enc(), hex(&enc)));
@@ -682,5 +684,54 @@ fn alloc_case<T: Reg>(cx: &mut Cx, name: &str, desc: &str, inp: &[u8], known: bo
 	let bound = 16384u128 * (inp.len() as u128 + 1) * 64 + 16384 * 64;
 	if T::min_wire() > 0 {
 		cx.oracle.check(total <= bound, "announced-allocation-unbounded", || format!("{rp}\ttotal={total}"));
+	}
+}
+
+
+/// C18: DecodeLength::len on the six collections and tuples led by one
+pub fn len_cases(cx: &mut Cx) {
+	use parity_scale_codec::DecodeLength;
+	use std::collections::{BTreeMap, BTreeSet, BinaryHeap, LinkedList, VecDeque};
+	fn one<T: Encode + DecodeLength>(cx: &mut Cx, name: &str, v: &T, true_len: usize) {
+		let enc = v.encode();
+		let r = catch_unwind(AssertUnwindSafe(|| T::len(&enc).ok()));
+		cx.oracle.check(r.ok().flatten() == Some(true_len), "len-peek-wrong", || format!("{name}\tlen\t{}\ttrue_len={true_len}", hex(&enc[..enc.len().min(64)])));
+		// with trailing bytes and on a truncated body the count is still the count
+		let mut ext = enc.clone();
+		ext.extend_from_slice(&[1, 2, 3]);
+		let r2 = catch_unwind(AssertUnwindSafe(|| T::len(&ext).ok()));
+		cx.oracle.check(r2.ok().flatten() == Some(true_len), "len-peek-wrong-with-suffix", || format!("{name}\tlen\t{}", hex(&ext[..ext.len().min(64)])));
+		cx.stats.bump("len-peek");
+	}
+	let n = if cx.thorough { 400 } else { 60 };
+	for i in 0..n {
+		// lengths in every compact class
+		let k = match i % 8 {
+			0 => 0,
+			1 => 63,
+			2 => 64,
+			3 => 16383,
+			4 => 16384,
+			5 => 16385 + cx.rng.below(70000) as usize,
+			_ => cx.rng.below(300) as usize,
+		};
+		let bytes = cx.rng.bytes(k);
+		one::<Vec<u8>>(cx, "Vec<u8>", &bytes, k);
+		one::<VecDeque<u8>>(cx, "VecDeque<u8>", &bytes.iter().cloned().collect(), k);
+		one::<LinkedList<u8>>(cx, "LinkedList<u8>", &bytes.iter().cloned().collect(), k);
+		one::<BinaryHeap<u8>>(cx, "BinaryHeap<u8>", &bytes.iter().cloned().collect(), k);
+		let set: BTreeSet<u32> = (0..k as u32).map(|x| x.wrapping_mul(2654435761)).collect();
+		let sl = set.len();
+		one::<BTreeSet<u32>>(cx, "BTreeSet<u32>", &set, sl);
+		let map: BTreeMap<u32, u8> = set.iter().map(|x| (*x, *x as u8)).collect();
+		one::<BTreeMap<u32, u8>>(cx, "BTreeMap<u32,u8>", &map, sl);
+		let words: Vec<u32> = (0..k as u32).collect();
+		one::<Vec<u32>>(cx, "Vec<u32>", &words, k);
+		one::<(Vec<u8>, u8)>(cx, "(Vec<u8>,u8)", &(bytes.clone(), 7), k);
+		one::<(Vec<u32>, String, bool)>(cx, "(Vec<u32>,String,bool)", &(words.clone(), "x".into(), true), k);
+		one::<(BTreeSet<u32>,)>(cx, "(BTreeSet<u32>,)", &(set.clone(),), sl);
+		let strs: Vec<String> = (0..k.min(3000)).map(|j| "ab".repeat(j % 3)).collect();
+		let sl2 = strs.len();
+		one::<Vec<String>>(cx, "Vec<String>", &strs, sl2);
 	}
 }
